@@ -10,7 +10,7 @@ git -C /repo worktree add -q --detach $wt HEAD || exit 2
 (cd $wt && git apply $src/patch.diff) || {
   # written against an older HEAD: try a three-way merge and keep the rebased patch
   (cd $wt && git apply -3 $src/patch.diff && git reset -q && git diff > $src/patch.rebased && mv $src/patch.rebased $src/patch.diff && echo "patch rebased onto the current HEAD") ||
-  (cd $wt && git reset -q --hard && { git apply -C1 --recount $src/patch.diff || patch -p1 -F3 -s < $src/patch.diff; } && find . -name '*.orig' -delete && git diff > $src/patch.rebased && mv $src/patch.rebased $src/patch.diff && echo "patch rebased onto the current HEAD (reduced context)") ||
+  (cd $wt && git reset -q --hard && { git apply -C1 --recount $src/patch.diff || patch -p1 -F3 -s < $src/patch.diff; } && find . -name '*.orig' -delete && go build ./... 2>/dev/null && git diff > $src/patch.rebased && mv $src/patch.rebased $src/patch.diff && echo "patch rebased onto the current HEAD (reduced context, builds)") ||
   { echo "PATCH DOES NOT APPLY"; git -C /repo worktree remove --force $wt; exit 2; }
 }
 (cd $wt && go build ./...) || { echo "DOES NOT COMPILE"; git -C /repo worktree remove --force $wt; exit 2; }
